@@ -69,3 +69,8 @@ def run(P, C, engines):
         C.selftest("SP-1", bool(bad) and bool(_c2) and not good, "stale read of a cached factor array flagged, reloaded twin silent")
         nf, rel = sp.freed_derefs(P.one("st_sp2_released"))
         C.selftest("SP-2", nf == 1 and bool(rel), "field read through a released object flagged")
+    if "env1" in engines:
+        from .rules import ed as _ed
+        f = P.one("st_env1_ftz")
+        hit = any(cal and (cal["name"] in _ed.FPENV_CALLS or (f.call_macro(i) or "") in _ed.FPENV_CALLS) for i, cal in f.calls())
+        C.selftest("ENV-1", hit, "a write of MXCSR is recognised")
